@@ -41,6 +41,8 @@ def run(ck):
     ck.rule("C06.R9", "enter / exit / current_span / new_span reach the registry through Dispatch unchanged (as C09.R4)", floor=4)
     ck.rule("C06.R10", "root / contextual / explicit parent is encoded and decoded consistently: Attributes and Event constructors store the Parent variant their name says, and is_root / is_contextual / parent read back exactly that variant", floor=10)
     ck.rule("C06.R11", "ancestors stay readable while anything refers to them: the registry's reference count moves by atomic read-modify-write only, with the release/acquire pairing of the last decrement (as C05.R2)", floor=3)
+    ck.rule("C06.R16", "a captured SpanTrace walks exactly the chain of ancestors: ErrorSubscriber::get_context hands every span of the scope to the visitor -- a span "
+            "without stored fields is reported with empty fields, not skipped -- and stops only when the visitor says so", floor=1)
     ck.rule("C06.R15", "a thread starts with an empty span stack: the storage of the per-thread stack does not outlive its thread (or is emptied when the thread ends)", floor=1)
     ck.rule("C06.R14", "every layer of the workspace that writes out the spans an event happened in asks for the *event's* scope (explicit parent, explicit root "
             "or the current span), not for the thread's current span: fmt and tracing-journald agree", floor=2)
@@ -65,6 +67,7 @@ def run(ck):
     _C03.r5(ck, F, rid="C06.R13")
     event_context_siblings(ck, F)
     stack_storage(ck, F)
+    span_trace_walk(ck, F)
     from rules import C05 as _C05
     _C05.r2(ck, F, rid="C06.R11")
     from rules import C09 as _C09
@@ -350,6 +353,34 @@ def r5(ck, F):
         else:
             ck.bad("C06.R5", key, where(ws.raw["sp"]), "the captured id is resolved through %s: read on another thread, after the scope ended or under another collector "
                    "the trace is empty or shows an unrelated span's ancestors" % (sorted(set(ambient)) or "something other than Span::with_collector"), fn=ws.path)
+
+
+def span_trace_walk(ck, F, rid="C06.R16"):
+    b = next((x for x in F.body_list if x.path.startswith("tracing_error::subscriber::ErrorSubscriber") and x.path.endswith("::get_context")), None)
+    if not ck.anchor(rid, "ErrorSubscriber::get_context", b):
+        return
+    key = "get_context visits every span of the scope"
+    problems = set()
+    n = 0
+    for p in PathEval(b).run():
+        cs = [(show(c[0]), c[1]) for c in p.conds]
+        took = [v for t, v in cs if t.startswith("discr(next(")]
+        if not took or took[0] != 1:
+            continue            # the scope is exhausted (or the impossible discriminant)
+        n += 1
+        visited = any(c[1].get("method") in ("call_mut", "call", "call_once") for c in p.calls)
+        if not visited:
+            problems.add("a span of the scope is passed over without the visitor being called (%s)" % ("loop goes on" if p.end == "loop" else p.end))
+        stop = [v for t, v in cs if t.startswith(("call_mut(", "call(")) ]
+        if p.end == "return" and visited and not (stop and stop[-1] == 0):
+            problems.add("the walk ends although the visitor did not ask to stop")
+        if p.end == "loop" and visited and stop and stop[-1] == 0:
+            problems.add("the walk goes on although the visitor asked to stop")
+    if problems or not n:
+        ck.bad(rid, key, where(b.raw["sp"]), "; ".join(sorted(problems)) or "no path takes a span from the scope iterator" +
+               ": an ancestor silently disappears from every SpanTrace captured below it (a span whose fields could not be formatted has no FormattedFields)", fn=b.path)
+    else:
+        ck.ok(rid, key, fn=b.path, detail=n)
 
 
 def stack_storage(ck, F, rid="C06.R15"):
